@@ -28,7 +28,8 @@ fission  (do_loop_fission, FissionTransformer, promotion_dimensions_from_loop_ne
     not at all (promote=False is only paired with programs that need no promotion), lower bound 0/2, upper bound
     n-1 / literal, descending and strided loop, collapse(2), pragma only in the inner loop of a nest, pragma in the
     outer loop after an inner loop, pragma inside a conditional, array temporary, same temporary in two fission
-    loops of different length, upper-case name in promote(..)
+    loops of different length, upper-case name in promote(..), array element written before and updated after
+    the fission point (auto-promotion looks at names, not elements)
 interchange (do_loop_interchange, generate_loop_bounds)
     2- and 3-deep nests, implicit / explicit variable order (all permutations), project_bounds on rectangular
     and triangular (j=i,m / j=1,i) nests (triangular nests only with project_bounds=True: otherwise the
@@ -51,6 +52,8 @@ as an explicit refusal; order of floating-point operations is never an issue (dy
 iterations); a loop variable's value after a fused / fissioned / interchanged / split loop is not observed
 (only after unrolling, where the statement says "always preserves").
 """
+import hashlib
+
 from vf import xform
 from vf.explore import deviations
 
@@ -86,6 +89,15 @@ def u_grid(quick):
     return out
 
 
+def u_batches(quick):
+    """the grid, one batch of loops per start value (several loops per kernel: one compile per batch; a failing
+    batch is bisected down to single triples by run())"""
+    by_start = {}
+    for t in u_grid(quick):
+        by_start.setdefault(t[0], []).append(t)
+    return [tuple(v) for _, v in sorted(by_start.items())]
+
+
 def u_values(t):
     a, b, st = t
     st = 1 if st is None else st
@@ -98,15 +110,15 @@ def u_class(t):
 
 
 U_BODIES = {
-    # name: (extra body lines, lines after the loop, wrapper)
-    'after': ([], ['iv = i'], None),
-    'power': (['s = s + i**2'], [], None),
-    'negate': (['s = s - i + (-i)*2'], [], None),
-    'offset_sub': (['a(i + 1) = a(i - 1) + 1.0', 'a(2*i) = a(2*i) - 0.5'], [], None),
-    'mod': (['s = s + mod(i, 3) + abs(i)'], [], None),
-    'cond': (['if (i > 0) then', '  s = s + 1', 'else', '  s = s - 2', 'end if'], [], None),
-    'call_arg': (['call bump(i, s)'], [], None),
-    'inner_dep': (['do j = 0, i', '  s = s + j*(i + 5) + 1', 'end do'], [], None),
+    # name: (extra body lines, lines after the loop, wrapper); $k = number of the loop in the batch
+    'after': ([], ['iv($k) = i'], None),
+    'power': (['s($k) = s($k) + i**2'], [], None),
+    'negate': (['s($k) = s($k) - i + (-i)*2'], [], None),
+    'offset_sub': (['a(i + 1, $k) = a(i - 1, $k) + 1.0', 'a(2*i, $k) = a(2*i, $k) - 0.5'], [], None),
+    'mod': (['s($k) = s($k) + mod(i, 3) + abs(i)'], [], None),
+    'cond': (['if (i > 0) then', '  s($k) = s($k) + 1', 'else', '  s($k) = s($k) - 2', 'end if'], [], None),
+    'call_arg': (['call bump(i, s($k))'], [], None),
+    'inner_dep': (['do j = 0, i', '  s($k) = s($k) + j*(i + 5) + 1', 'end do'], [], None),
     'cycle_top': (['@first if (i == 1) cycle'], [], None),
     'exit_top': (['@first if (i == 1) exit'], [], None),
     'cycle_in_outer': (['@first if (i == 1) cycle'], [], 'outer'),
@@ -115,7 +127,7 @@ U_BODIES = {
     'param_bound': ([], [], 'param'),
 }
 
-U_HEAD = '''module lmod
+U_HEAD = """module lmod
   implicit none
 contains
   subroutine bump(k, s)
@@ -123,57 +135,65 @@ contains
     integer, intent(inout) :: s
     s = s + 2*k
   end subroutine bump
-  subroutine kern(a, s, iv)
-    real, intent(inout) :: a(-9:9)
-    integer, intent(inout) :: s, iv
-    integer :: i, j, k
+  subroutine kern(a, s, iv, nb)
+    integer, intent(in) :: nb
+    real, intent(inout) :: a(-9:9, nb)
+    integer, intent(inout) :: s(nb), iv(nb)
+    integer :: i, j, ko
     integer, parameter :: np = 3
-    i = -77
     j = -77
-'''
-U_TAIL = '''  end subroutine kern
+"""
+U_TAIL = """  end subroutine kern
 end module lmod
-'''
-U_DRIVER = '''program drv
+"""
+U_DRIVER = """program drv
   use lmod
   implicit none
-  real :: a(-9:9)
-  integer :: s, iv, g, e
+  integer, parameter :: nb = @NB@
+  real :: a(-9:9, nb)
+  integer :: s(nb), iv(nb), g, e, k
   do g = 1, 2
-    do e = -9, 9
-      a(e) = real(e*g) * 0.25
+    do k = 1, nb
+      do e = -9, 9
+        a(e, k) = real(e*g + k) * 0.25
+      end do
+      s(k) = g + mod(k, 3)
+      iv(k) = 0
     end do
-    s = g
-    iv = 0
-    call kern(a, s, iv)
+    call kern(a, s, iv, nb)
     write(*,'(A,I0)') 'G', g
-    write(*,'(A,19(1X,ES14.7))') 'A', a
-    write(*,'(A,I0,1X,I0)') 'S', s, iv
+    do k = 1, nb
+      write(*,'(A,I0,19(1X,ES14.7))') 'A', k, a(:, k)
+      write(*,'(A,I0,1X,I0,1X,I0)') 'S', k, s(k), iv(k)
+    end do
   end do
 end program drv
-'''
+"""
 
 
 def u_build(dev):
-    a, b, st = dev.get('range', U_DEFAULT)
+    triples = dev.get('range', (U_DEFAULT,))
     extra, after, wrap = U_BODIES[dev['body']] if 'body' in dev else ([], [], None)
-    rng = f'{a}, {b}' + (f', {st}' if st is not None else '')
-    if wrap == 'param':
-        rng = '1, np'
     first = [ln[7:] for ln in extra if ln.startswith('@first ')]
     rest = [ln for ln in extra if not ln.startswith('@first ')]
-    body = first + ['a(i) = a(i) + real(i)*0.5', 's = s*3 + i'] + rest
-    name = 'lp: ' if wrap == 'named' else ''
-    end = ' lp' if wrap == 'named' else ''
-    lines = ['!$loki loop-unroll', f'{name}do i = {rng}'] + ['  ' + ln for ln in body] + [f'end do{end}']
-    if wrap == 'outer':
-        lines = ['do k = 1, 2'] + ['  ' + ln for ln in lines] + ['  s = s + 1000*k', 'end do']
-    lines += after
-    return U_HEAD + ''.join(f'    {ln}\n' for ln in lines) + U_TAIL, U_DRIVER
+    body = first + ['a(i, $k) = a(i, $k) + real(i)*0.5', 's($k) = s($k)*3 + i'] + rest
+    out = []
+    for k, (a, b, st) in enumerate(triples, 1):
+        rng = f'{a}, {b}' + (f', {st}' if st is not None else '')
+        if wrap == 'param':
+            rng = '1, np'
+        name = 'lp$k: ' if wrap == 'named' else ''
+        end = ' lp$k' if wrap == 'named' else ''
+        lines = ['!$loki loop-unroll', f'{name}do i = {rng}'] + ['  ' + ln for ln in body] + [f'end do{end}']
+        if wrap == 'outer':
+            lines = ['do ko = 1, 2'] + ['  ' + ln for ln in lines] + ['  s($k) = s($k) + 1000*ko', 'end do']
+        lines = ['i = -77'] + lines + after
+        out += [ln.replace('$k', str(k)) for ln in lines]
+    return U_HEAD + ''.join(f'    {ln}\n' for ln in out) + U_TAIL, U_DRIVER.replace('@NB@', str(len(triples)))
 
 
 def u_menu(quick):
-    return {'range': u_grid(quick), 'body': list(U_BODIES)}
+    return {'range': u_batches(quick), 'body': list(U_BODIES)}
 
 
 # ============================================================================ unroll, nests and depth
@@ -374,6 +394,7 @@ S_MENU = {
     'in_cond': [True],
     'array_tmp': [True],
     'two_loops_same_tmp': [True],
+    'raw_array': [True],
 }
 
 
@@ -396,7 +417,10 @@ def s_build(dev):
     if atmp:
         s1.insert(1, 'tt(2) = p(i) + 0.5')
     s2 = [f'{x("b")} = {x("b")} + ' + (f'{tv}*0.5' + (' + tt(2)' if atmp else '') if carry else 'p(i)*0.5')]
-    s3 = [f'c(i) = c(i) + real(i) + p(i)'] if not two_d else ['a2(i, 0) = a2(i, 0) + real(i + j)*0.5']
+    s3 = ['c(i) = c(i) + real(i) + p(i)'] if not two_d else ['c3(i, j, 1) = c3(i, j, 1) + real(i + j)*0.5']
+    if dev.get('raw_array'):
+        # the array written before the fission point is updated again after it (same element: still independent)
+        s3 = [f'{x("a")} = {x("a")}*2.0']
     pr = f'!$loki loop-fission{col}'
     body = list(s1)
     if pts in ('first', 'both'):
@@ -485,8 +509,8 @@ contains
     real, intent(in) :: p(0:nn)
     real, intent(inout) :: a2(0:nn, 0:nn), b2(0:nn, 0:nn), c3(0:nn, 0:nn, 0:nn)
     real, intent(inout) :: q
-    integer :: i, j, bs
-    bs = 3
+    integer :: i, j
+    integer, parameter :: bs = 3
 '''
 B_DRIVER = GRID_DRIVER.replace('ng = 6', 'ng = 8') \
     .replace('ns(ng) = (/ 3, 4, 2, 1, 0, 5 /)', 'ns(ng) = (/ 0, 1, 2, 3, 4, 5, 6, 6 /)') \
@@ -554,9 +578,18 @@ FAMILIES = {
 }
 
 
+def range_label(triples):
+    triples = [tuple(t) for t in triples]
+    one = lambda t: '(' + ','.join('-' if x is None else str(x) for x in t) + ')'
+    if len(triples) == 1:
+        return one(triples[0])
+    h = hashlib.sha1(repr(triples).encode()).hexdigest()[:6]
+    return f'{one(triples[0])}..{one(triples[-1])}x{len(triples)}#{h}'
+
+
 def fmt_val(v):
     if isinstance(v, (tuple, list)):
-        return '(' + ','.join('-' if x is None else str(x) for x in v) + ')'
+        return range_label(v)
     return str(v).replace(' ', '')
 
 
@@ -569,25 +602,35 @@ def case_id(fam, dev, xf, opts):
     return f'{fam}:{dev_id(dev)}|{xf}({oid})'
 
 
+def make_case(fam, dev, n):
+    _, build, xfs, _ = FAMILIES[fam]
+    xf, opts = xfs[n]
+    text, driver = build(dev)
+    block_size = dev.get('block_size', 2) if fam in ('split', 'block') else None
+    o = dict(opts, block_size=block_size) if block_size is not None else dict(opts)
+    return dict(id=case_id(fam, dev, xf, opts), sources=[['lmod.f90', text]], driver=driver,
+                xform=xf, opts=o, family=fam, variant=n,
+                switches=[[k, ([list(t) for t in v] if isinstance(v, tuple) else v)] for k, v in dev.items()])
+
+
 def make_cases(d, quick=None):
     """every combination of <= d switches per family x the family's transformation variants.
     The unroll grid is the quick sub-grid for d == 1 unless `quick` says otherwise."""
     quick = (d <= 1) if quick is None else quick
     cases = []
-    for fam, (menu, build, xfs, keep) in FAMILIES.items():
+    for fam, (menu, _, xfs, keep) in FAMILIES.items():
         for dev in deviations(menu(quick), d):
-            text, driver = build(dev)
             for n, (xf, opts) in enumerate(xfs):
                 if keep and not keep(dev, xf, opts):
                     continue
-                if xf == 'trafo' and len(dev) > 1:
-                    continue        # the Transformation wrapper adds no branch of its own: d <= 1 only
-                block_size = dev.get('block_size', 2) if fam in ('split', 'block') else None
-                o = dict(opts, block_size=block_size) if block_size is not None else dict(opts)
-                cases.append(dict(id=case_id(fam, dev, xf, opts), sources=[['lmod.f90', text]], driver=driver,
-                                  xform=xf, opts=o, family=fam, variant=n,
-                                  switches=[[k, (list(v) if isinstance(v, tuple) else v)] for k, v in dev.items()]))
+                if xf == 'trafo' and (len(dev) > 1 or 'range' in dev):
+                    continue        # the Transformation wrapper adds no branch of its own: d <= 1, default range only
+                cases.append(make_case(fam, dev, n))
     return cases
+
+
+def case_dev(case):
+    return {k: (tuple(tuple(t) for t in v) if k == 'range' else v) for k, v in case['switches']}
 
 
 def apply(case, files):
@@ -624,7 +667,34 @@ def apply(case, files):
                 if polyhedron_assert(ex):
                     raise NotImplementedError('Polyhedron.from_loop_ranges asserts unit loop steps '
                                               '(non-unit step not supported)') from ex
+                crash = internal_crash(ex)
+                if crash:
+                    raise RuntimeError(crash) from ex
                 raise
+
+
+CRASH_TYPES = (TypeError, AttributeError, KeyError, IndexError, NameError, ZeroDivisionError, AssertionError,
+               UnboundLocalError, RecursionError)
+
+
+def exception_chain(ex):
+    seen = []
+    while ex is not None and not any(ex is s for s in seen):
+        seen.append(ex)
+        ex = ex.__cause__ or ex.__context__
+    return seen
+
+
+def internal_crash(ex):
+    """xform.is_refusal matches the word 'unsupported' / 'cannot' anywhere in the message, which also hits CPython's
+    own messages ("unsupported operand type(s) for -", "cannot unpack ...").  A Python programming error at the root
+    of the chain is a crash, never a refusal: re-word the message so that it is classified as loki-exception."""
+    root = exception_chain(ex)[-1]
+    if isinstance(root, CRASH_TYPES) or type(root).__name__ == 'ValidationError':
+        msg = str(root).replace('unsupported', 'unsupp.').replace('cannot ', 'can not ').replace('not supported', 'not supp.')
+        msg = msg.replace('not possible', 'not poss.').replace('not implemented', 'not impl.')
+        return f'internal {type(root).__name__}: {msg[:200]}'
+    return None
 
 
 def polyhedron_assert(ex):
@@ -650,10 +720,8 @@ def worker(case):
 worker.base = None
 
 
-def switch_label(case, k, v):
-    if case['family'] == 'unroll' and k == 'range':
-        return f'range[{u_class(tuple(v))}]'
-    return f'{k}={fmt_val(v)}'
+def bad(r):
+    return r['verdict'] not in ('ok', 'unchanged-ok', 'refused')
 
 
 def sigfn(results_by_id):
@@ -661,14 +729,70 @@ def sigfn(results_by_id):
         fam = case['family']
         _, _, xfs, _ = FAMILIES[fam]
         xf, opts = xfs[case['variant']]
-        for k, v in case['switches']:
-            v_ = tuple(v) if isinstance(v, list) else v
-            single = results_by_id.get(case_id(fam, {k: v_}, xf, opts))
+        dev = case_dev(case)
+        labels = []
+        for k, v in dev.items():
+            if k == 'range':
+                labels.append('range[' + ','.join(sorted({u_class(t) for t in v})) + ']')
+                continue        # a batch of ranges is never its own explanation: it is bisected to single triples
+            labels.append(f'{k}={fmt_val(v)}')
+            single = results_by_id.get(case_id(fam, {k: v}, xf, opts))
             if single and single['verdict'] == r['verdict']:
-                return f'{r["verdict"]} block={switch_label(case, k, v)} xform={fam}'
-        lab = '+'.join(switch_label(case, k, v) for k, v in case['switches']) or 'base'
-        return f'{r["verdict"]} blocks={lab} xform={fam}'
+                return f'{r["verdict"]} block={labels[-1]} xform={fam}'
+        if len(labels) == 1:
+            return f'{r["verdict"]} block={labels[0]} xform={fam}'
+        return f'{r["verdict"]} blocks={"+".join(labels) or "base"} xform={fam}'
     return sig
+
+
+def explained_by_body(case, r, by_id):
+    dev = case_dev(case)
+    if 'body' not in dev:
+        return False
+    _, _, xfs, _ = FAMILIES[case['family']]
+    xf, opts = xfs[case['variant']]
+    single = by_id.get(case_id(case['family'], {'body': dev['body']}, xf, opts))
+    return bool(single) and single['verdict'] == r['verdict']
+
+
+def refine_batches(ctx, cases, results, by_id):
+    """bisect every failing batch of unroll ranges (that is not explained by its body feature failing on the default
+    range in the same way) down to single (start, stop, step) triples; passing halves stay in as evaluations."""
+    out_c, out_r, pending = [], [], []
+    for c, r in zip(cases, results):
+        dev = case_dev(c)
+        if c['family'] == 'unroll' and bad(r) and len(dev.get('range', ())) > 1 and not explained_by_body(c, r, by_id):
+            pending.append((c, r))
+        else:
+            out_c.append(c)
+            out_r.append(r)
+    rounds = 0
+    while pending:
+        rounds += 1
+        halves, parent = [], []
+        for c, r in pending:
+            dev = case_dev(c)
+            tr = dev['range']
+            for part in (tr[:len(tr) // 2], tr[len(tr) // 2:]):
+                halves.append(make_case('unroll', dict(dev, range=tuple(part)), c['variant']))
+                parent.append((c, r))
+        res = xform.judge_cases(ctx, halves, worker)
+        failing_parents = set()
+        nxt = []
+        for h, hr, (pc, pr) in zip(halves, res, parent):
+            if bad(hr):
+                failing_parents.add(pc['id'])
+                if len(case_dev(h)['range']) > 1:
+                    nxt.append((h, hr))
+                    continue
+            out_c.append(h)
+            out_r.append(hr)
+        for pc, pr in pending:
+            if pc['id'] not in failing_parents:      # fails only as a whole: keep the batch itself as the violating case
+                out_c.append(pc)
+                out_r.append(pr)
+        pending = nxt
+    return out_c, out_r, rounds
 
 
 def run(ctx):
@@ -678,14 +802,19 @@ def run(ctx):
     ctx.reset_pool()
     results = xform.judge_cases(ctx, cases, worker)
     by_id = {r['id']: r for r in results}
+    cases, results, rounds = refine_batches(ctx, cases, results, by_id)
     xform.summarise(ctx, cases, results, sigfn(by_id), min_changed=50)
     per_family = {}
+    triples_ok = set()
     for c, r in zip(cases, results):
         f = per_family.setdefault(c['family'], dict(cases=0, changed_ok=0, refused=0, violating=0))
         f['cases'] += 1
         f['changed_ok'] += int(r['verdict'] == 'ok' and bool(r.get('changed')))
         f['refused'] += int(r['verdict'] == 'refused')
-        f['violating'] += int(r['verdict'] not in ('ok', 'unchanged-ok', 'refused'))
+        f['violating'] += int(bad(r))
+        if c['family'] == 'unroll' and r['verdict'] == 'ok':
+            dev = case_dev(c)
+            triples_ok |= {(dev.get('body', 'base'), t) for t in dev.get('range', (U_DEFAULT,))}
     for fam, f in per_family.items():
         ctx.require(f['changed_ok'] >= 3, f'vacuous: family {fam} changed only {f["changed_ok"]} programs')
     grid = u_grid(ctx.quick)
@@ -694,12 +823,13 @@ def run(ctx):
     ctx.cov.update(
         exhaustive=True,
         bound=dict(max_switches=d, families={f: {k: len(v) for k, v in FAMILIES[f][0](ctx.quick).items()} for f in FAMILIES},
-                   unroll_grid=len(grid) + 1, unroll_range_classes=classes),
-        per_family=per_family,
+                   unroll_grid=len(grid) + 1, unroll_range_classes=classes, unroll_batches=len(u_batches(ctx.quick))),
+        per_family=per_family, unroll_body_x_triple_ok=len(triples_ok), bisection_rounds=rounds,
         rule=f'per family all combinations of <= {d} switch settings x transformation variants; unroll: complete literal '
-             f'(start,stop,step) grid of {len(grid) + 1} triples; 2 to 8 input sizes per run; non-trivial = the '
+             f'(start,stop,step) grid of {len(grid) + 1} triples, one kernel per start value holding one pragma-marked loop '
+             'per triple (failing kernels are bisected to single triples); 2 to 8 input sizes per run; non-trivial = the '
              'transformation changed the generated code and the program still prints the original output',
-        samples=[dict(id=cases[0]['id']), dict(id=cases[-1]['id'], text=cases[-1]['sources'][0][1])],
+        samples=[dict(id=cases[0]['id']), dict(id=cases[-1]['id'], text=cases[-1]['sources'][0][1][:3000])],
     )
     ctx.assumptions += ['gfortran -O0 -fcheck=bounds -finit-integer=-9999 -finit-real=nan defines behaviour',
                         'only standard-conforming programs are generated; fusion/fission/interchange legality by construction',
